@@ -16,6 +16,9 @@ func init() {
 			rulePendingKey(c)
 			ruleAppendTarget(c)
 			ruleRegistryKey(c)
+			// the bytes do not depend on which codec happened to be built first: an option selects its codec
+			// under its own (type, tag) key
+			ruleOptionScope(c)
 			// Marshal(buf, v) = buf + Marshal(nil, v): what an encoder appends is what it sizes
 			ruleSizeLaw(c)
 			ruleFrame(c)
